@@ -89,6 +89,13 @@ def explore(ctx, extended=False, focus=None):
             bad = r1csread.check(wt, r1, p, pubs, privs, cons)
         except r1csread.FormatError as e:
             bad = [("malformed", str(e))]
+        if src == "program" and f[1] == "ok" and ",ign=0|" in line and "set ign" not in line and not bad:
+            # with C01: the decoded witness of a completed run satisfies the decoded constraints
+            def ev(l, wv): return sum(c * wv[i] for i, c in l) % p
+            for ci, dc in enumerate(r1["constraints"]):
+                if (ev(dc[0], wt["values"]) * ev(dc[1], wt["values"]) - ev(dc[2], wt["values"])) % p != 0:
+                    bad.append(("decoded-unsatisfied", f"constraint {ci} of circuit.r1cs is not satisfied by witness.wtns"))
+                    break
         for clause, msg in bad:
             ex.violations.append(Violation({"clause": clause}, f"{clause}: {msg}", {"line": line[:5000]}))
         if len(ex.samples) < 5 and cons:
